@@ -216,9 +216,12 @@ def cases(draw):
     n2 = draw(st.integers(0, 2))
     mem = [f'm{i}' for i in range(1, n1 + 1)]
     sub = [f's{i}' for i in range(1, n2 + 1)]
-    fams = {'FAM': mem + (['SUB'] if sub else [])}
+    # the nested family is called SUB, or X-FAM (a name that ends in "FAM"
+    # after a non-word character)
+    subname = draw(st.sampled_from(['SUB', 'SUB', 'X-FAM']))
+    fams = {'FAM': mem + ([subname] if sub else [])}
     if sub:
-        fams['SUB'] = sub
+        fams[subname] = sub
     famnames = sorted(fams)
     # one optionality profile for all family members of the case
     sf = draw(st.sampled_from([0, 1, 1, 2]))
@@ -437,6 +440,22 @@ def _family_quals(chains, fams):
     return left, right
 
 
+def _fam_name_overlap(chains, fams):
+    """Some left-hand node has FAM:q and <something non-word>FAM:q (same
+    qualifier and offset), e.g. FAM:succeed-all | X-FAM:succeed-all."""
+    for ch in chains:
+        for node in ch[:-1] if len(ch) > 1 else []:
+            atoms = [a for a in B._atoms(node) if a['n'] in fams]
+            for a in atoms:
+                for b in atoms:
+                    if (a['n'] != b['n'] and b['n'].endswith(a['n'])
+                            and not re.match(r'\w', b['n'][-len(a['n']) - 1])
+                            and a.get('q') == b.get('q')
+                            and a.get('o', '') == b.get('o', '')):
+                        return True
+    return False
+
+
 def _single_lhs_ok(q, fams, size_fam='FAM'):
     """Does `FAM:q(?) => zz9` alone parse to the member-level meaning?"""
     from cylc.flow.graph_parser import GraphParser
@@ -528,7 +547,12 @@ def check_case(case, ctx: Ctx) -> CaseResult:
     if lhs_bad:
         culprits = sorted(q for q in lq if not _single_lhs_ok(q, fams))
         right, why = lhs_bad[0]
-        if culprits:
+        if (not culprits and why.startswith('unparseable')
+                and _fam_name_overlap(chains, fams)):
+            viol.append(Violation(
+                'C15:lhs-garbled:family-name-suffix-overlap',
+                f'triggers of {right}: {why}\n{ctxt}'))
+        elif culprits:
             for q in culprits:
                 viol.append(Violation(
                     f'C15:lhs-meaning:{q}',
@@ -659,7 +683,7 @@ def _check_config(fams, chains, model, ctx):
         cfg = load_config(text, ctx.scratch)
     except CylcError as exc:
         sig = 'C15:config-valid-family-graph-rejected'
-        m = re.search(r'Undefined custom output: (\w+):([\w-]+)', str(exc))
+        m = re.search(r'Undefined custom output: ([\w\-+%@]+):([\w-]+)$', str(exc))
         if m and m.group(1) in fams and m.group(2) in QUALS:
             # a family qualifier at the end of a chain taken for a custom
             # output of a task called like the family
@@ -688,8 +712,10 @@ def _check_config(fams, chains, model, ctx):
                 except (G.ExprSyntax, G.MixedOps) as exc:
                     broken = str(exc)
         if broken:
-            viol.append(Violation('C15:config-dependency-unparseable',
-                                  f'{name}: {broken}\n{text}'))
+            sig = 'C15:config-dependency-unparseable'
+            if _fam_name_overlap(chains, fams):
+                sig = 'C15:lhs-garbled:family-name-suffix-overlap'
+            viol.append(Violation(sig, f'{name}: {broken}\n{text}'))
             continue
         bad = _compare_tables({name: (trees, [])} if trees else {},
                               {name: lhs} if lhs else {})
